@@ -129,7 +129,7 @@ func VerifC02_LoadStore() {
 }
 
 // VerifC02_Bulk: memory.fill / memory.copy / memory.init for all operands and memory sizes.
-//verif:opts split=op:3 unwind=12
+//verif:opts split=op:3 unwind=12 obl-timeout=300000 wall=1500
 func VerifC02_Bulk() {
 	ctx := context.Background()
 	op := verifrt.Choose("op", 3)
